@@ -22,6 +22,32 @@ def prebuild():
     vlib.build_driver("drv_float", "pinned", LIB, **BUILD)
 
 
+def side_rejects(work, model, tier):
+    """The float driver's events for another property's check: FloatTrace.tla also decides the float clauses of
+    C03 (written <= varintFloatMaxEncodedSize, exact-size guard-page destination) and C16 (bytes consumed by the
+    decoder = bytes written).  Returns (events, rejects, number of traces)."""
+    consts = "EB = 3\nMB = 6\nReduced = {2, 3, 4}\nCarryHandled = TRUE\nDB = 2\nSpanAfterRounding = TRUE"
+    cfg = os.path.join(work, "FloatModelSide.cfg")
+    with open(cfg, "w") as f:
+        f.write("SPECIFICATION Spec\nCONSTANTS\n%s\nINVARIANT Contract\nCHECK_DEADLOCK FALSE\n" % consts)
+    r = vlib.tlc_or_broken("FloatModel.tla", cfg, workers=vlib.NCPU, xmx="4g")
+    model.add("FloatModel[classes]", r)
+    classes_txt = sorted({re.sub(r'[<>",]', "", m.group(0)).strip()
+                          for m in re.finditer(r'<<"FCLASS", \d, -?\d+, "\w+">>|<<"FSPECIAL", "\w+">>|<<"FSPAN", -?\d+, \d+, "\w+", "\w+">>', r["out"])})
+    path = os.path.join(work, "fclasses.txt")
+    with open(path, "w") as f:
+        f.write("\n".join(classes_txt) + "\n")
+    drv = vlib.build_driver("drv_float", "pinned", LIB, **BUILD)
+    traces, cmds = [], []
+    for s in range(vlib.NCPU):
+        out = os.path.join(work, "side-f64-%02d.ndjson" % s)
+        traces.append(out)
+        cmds.append([drv, path, str(s), str(vlib.NCPU), str(500 if tier == "quick" else 50000), out])
+    vlib.run_many(cmds)
+    events, rejects, _ = vlib.validate(traces, "FloatTrace.tla", "FloatTrace.cfg", xmx="3g")
+    return events, rejects, len(traces)
+
+
 def run(pid, tier):
     t0 = time.time()
     work = vlib.scratch(pid)
